@@ -94,19 +94,26 @@ def run_obligations(rep, obligations, jobs=None, validate=True):
                 if "does not build" in str(e):
                     rep.extra["translator_validation"] = {"skipped": "kernel wrappers do not compile against this tree (signature change)"}
                     rep.inconclusive.append("translator validation skipped: the kernel replay wrappers do not compile against this tree: " + str(e)[-300:])
-                elif "translator broken" in str(e) and "no model for callee" in str(e):
-                    rep.inconclusive.append("translator validation: " + str(e)[:400])
                 else:
-                    raise
+                    # a disagreement or an unsupported construct makes every solver verdict of this run inconclusive (exit 2 at best),
+                    # but the obligations still run: a counterexample they produce is judged natively, not by the translator
+                    rep.inconclusive.append("translator validation: " + str(e)[:400])
+            except Exception as e:  # noqa  (interpreter crash on a construct of a changed tree)
+                import traceback
+                rep.inconclusive.append("translator validation crashed (%s: %s); solver verdicts of this run are not trusted" % (type(e).__name__, str(e)[:200]))
+                log(traceback.format_exc()[-1500:])
         results = runner.pmap(_call, obligations, jobs)
     out = []
     for (fn, arg), (status, r) in zip(obligations, results):
         if status != "ok":
             nm = "%s%s" % (fn.__name__, "" if arg is None else " " + str(arg))
             rep.ob(nm, "M", "inconclusive", detail="%s: %s" % (status, str(r)[:1500]))
+            out.append({"name": nm, "fn": fn.__name__, "status": "inconclusive", "cands": [], "inconclusive": ["%s: %s" % (status, str(r)[:300])],
+                        "error": True, "queries": 0, "solver_s": 0.0, "paths": 0, "wall_s": 0.0})
             continue
         rs = r if isinstance(r, list) else [r]
         for x in rs:
+            x.setdefault("fn", fn.__name__)
             rep.queries += x["queries"]
             rep.solver_s += x["solver_s"]
             rep.functions.update(x.get("functions", []))
